@@ -16,6 +16,14 @@ PAD = "pad/pad/pad/pad/pad/pad"
 _counter = [0]
 _owner = [None]
 _bin = [None]
+_flavour = {"wrapper": None, "env": None, "cpu": None}
+
+
+def set_flavour(wrapper=None, env=None, cpu=None):
+    """Sanitizer shards: run every child through `wrapper` (e.g. valgrind), with extra environment and CPU limit."""
+    _flavour["wrapper"] = wrapper
+    _flavour["env"] = env
+    _flavour["cpu"] = cpu
 
 
 def set_binary(path):
@@ -129,9 +137,11 @@ def decode_list(out, ncols=1):
 
 
 def _limits():
-    resource.setrlimit(resource.RLIMIT_CPU, (CPU_LIMIT_S, CPU_LIMIT_S + 1))
+    cpu = _flavour["cpu"] or CPU_LIMIT_S
+    resource.setrlimit(resource.RLIMIT_CPU, (cpu, cpu + 1))
     resource.setrlimit(resource.RLIMIT_CORE, (0, 0))
-    resource.setrlimit(resource.RLIMIT_AS, (8 << 30, 8 << 30))
+    if not _flavour["wrapper"] and not (_flavour["env"] or {}).get("ASAN_OPTIONS"):
+        resource.setrlimit(resource.RLIMIT_AS, (8 << 30, 8 << 30))     # sanitizers reserve terabytes of address space
 
 
 def _proc_state(pid):
@@ -163,8 +173,14 @@ def run(args, cwd, home, tz="UTC", trace=False, wall=WALL_LIMIT_S, env_extra=Non
         from . import build
         env["LD_PRELOAD"] = build.fakeclock()
         env["FSV_FAKE_EPOCH"] = str(int(fake_epoch))
+    if _flavour["env"]:
+        env.update(_flavour["env"])
     if env_extra:
         env.update(env_extra)
+    if wrapper is None and _flavour["wrapper"]:
+        wrapper = _flavour["wrapper"]
+    if _flavour["cpu"] and wall == WALL_LIMIT_S:
+        wall = max(wall, 4 * _flavour["cpu"])
     argv = [exe] + list(args)
     straceout = None
     if uid is not None:
